@@ -65,6 +65,11 @@ var filterFuncs = []func([]byte) bool{
 	func([]byte) bool { return true },
 }
 
+// fixedMatcher is a read-only reference matcher shared by goroutines.
+type fixedMatcher struct{}
+
+func (fixedMatcher) MatchReference(l string) bool { return len(l)%2 == 0 }
+
 func allConfigs() []config {
 	var cs []config
 	for _, sb := range []cm.SoftBreakBehavior{cm.SoftBreakPreserve, cm.SoftBreakSpace, cm.SoftBreakHarden} {
@@ -154,13 +159,18 @@ func runBatch(inputs [][]byte, goroutines int) error {
 		b, r := cm.Parse(append([]byte(nil), in...))
 		wantParse[i] = dumpAll(b, r)
 	}
-	errs := make(chan error, goroutines*4+len(inputs)*2)
+	errs := make(chan error, goroutines*8+len(inputs)*8+16)
 	var wg sync.WaitGroup
 	start := make(chan struct{})
 	for i := range inputs {
 		wg.Add(2)
 		go func(i int) {
 			defer wg.Done()
+			defer func() {
+				if p := recover(); p != nil {
+					errs <- fmt.Errorf("panic on a goroutine: %v", p)
+				}
+			}()
 			<-start
 			b, r := cm.Parse(arena[offs[i]:offs[i+1]])
 			if got := dumpAll(b, r); got != wantParse[i] {
@@ -169,6 +179,11 @@ func runBatch(inputs [][]byte, goroutines int) error {
 		}(i)
 		go func(i int) {
 			defer wg.Done()
+			defer func() {
+				if p := recover(); p != nil {
+					errs <- fmt.Errorf("panic on a goroutine: %v", p)
+				}
+			}()
 			<-start
 			b, r, err := tree.StreamParse(bytes.NewReader(inputs[i]))
 			if err != nil {
@@ -177,6 +192,46 @@ func runBatch(inputs [][]byte, goroutines int) error {
 			}
 			if got := dumpAll(b, r); got != wantParse[i] {
 				errs <- fmt.Errorf("concurrent streaming parse of input %d differs from the sequential Parse", i)
+			}
+		}(i)
+	}
+	// (a') the streaming API with one InlineParser value shared by all
+	// goroutines (it is configuration: a matcher), each on its own input
+	sharedIP := &cm.InlineParser{ReferenceMatcher: fixedMatcher{}}
+	wantShared := make([]string, len(inputs))
+	rewriteAll := func(in []byte) (string, error) {
+		p := cm.NewBlockParser(bytes.NewReader(in))
+		var sb strings.Builder
+		for {
+			b, err := p.NextBlock()
+			if err != nil {
+				if err.Error() != "EOF" {
+					return "", err
+				}
+				return sb.String(), nil
+			}
+			sharedIP.Rewrite(b)
+			sb.WriteString(tree.DumpRoot(b, 0, 0))
+		}
+	}
+	for i, in := range inputs {
+		wantShared[i], _ = rewriteAll(in)
+	}
+	for i := range inputs {
+		wg.Add(1)
+		go func(i int) {
+			defer wg.Done()
+			defer func() {
+				if p := recover(); p != nil {
+					errs <- fmt.Errorf("panic on a goroutine: %v", p)
+				}
+			}()
+			<-start
+			got, err := rewriteAll(inputs[i])
+			if err != nil {
+				errs <- fmt.Errorf("concurrent streaming parse of input %d with a shared InlineParser: %v", i, err)
+			} else if got != wantShared[i] {
+				errs <- fmt.Errorf("concurrent Rewrite of input %d through a shared InlineParser differs from the sequential result", i)
 			}
 		}(i)
 	}
@@ -194,17 +249,23 @@ func runBatch(inputs [][]byte, goroutines int) error {
 		doc = append(doc, in...)
 		doc = append(doc, "\n\n"...)
 	}
-	blocks, refs := cm.Parse(doc)
+	// the expected results come from a separate parse of the same bytes: the
+	// shared tree and its reference map are fresh when the goroutines start,
+	// so anything computed lazily on first use (a cache in a node, in the map,
+	// in the renderer) is computed by several goroutines at once
+	blocks0, refs0 := cm.Parse(append([]byte(nil), doc...))
 	cfgs := allConfigs()
 	wantRender := make([]string, len(cfgs))
 	for i, c := range cfgs {
-		wantRender[i] = render(blocks, refs, c)
+		wantRender[i] = render(blocks0, refs0, c)
 	}
 	var fb bytes.Buffer
-	format.Format(&fb, blocks)
+	format.Format(&fb, blocks0)
 	wantFormat := fb.String()
-	wantWalk := walkSig(blocks)
+	wantWalk := walkSig(blocks0)
+	blocks, refs := cm.Parse(doc)
 	wantDump := dumpAll(blocks, refs)
+	wantRefs := fmt.Sprintf("%#v", map[string]cm.LinkDefinition(refs))
 	// one shared renderer value per configuration, used by many goroutines
 	shared := make([]*cm.HTMLRenderer, len(cfgs))
 	for i, c := range cfgs {
@@ -215,6 +276,11 @@ func runBatch(inputs [][]byte, goroutines int) error {
 		wg.Add(1)
 		go func(g int) {
 			defer wg.Done()
+			defer func() {
+				if p := recover(); p != nil {
+					errs <- fmt.Errorf("panic on a goroutine: %v", p)
+				}
+			}()
 			<-start2
 			for k := 0; k < 3; k++ {
 				ci := (g*3 + k) % len(cfgs)
@@ -247,6 +313,9 @@ func runBatch(inputs [][]byte, goroutines int) error {
 	wg.Wait()
 	if got := dumpAll(blocks, refs); got != wantDump {
 		return fmt.Errorf("the shared tree changed while it was rendered/formatted/walked concurrently")
+	}
+	if got := fmt.Sprintf("%#v", map[string]cm.LinkDefinition(refs)); got != wantRefs {
+		return fmt.Errorf("the shared reference map changed while the tree was rendered concurrently")
 	}
 	select {
 	case e := <-errs:
@@ -309,10 +378,10 @@ func genBatch(t *rapid.T) harness.Case {
 	return c
 }
 
-const rule = "batch of 4-16 G1/G2/G3 inputs x 8-64 goroutines behind a start barrier: (a) each input parsed (in-memory, as adjacent sub-slices of one shared buffer, and streaming) concurrently, (b) the concatenation (plus raw HTML with upper-case tag names) parsed once and rendered by shared HTMLRenderer values under all 24 configurations, formatted and walked concurrently; oracle = race detector log stays empty and every result equals the sequential one; non-trivial = batch has >= 4 inputs including reference syntax and raw HTML"
+const rule = "batch of 4-16 G1/G2/G3 inputs x 8-64 goroutines behind a start barrier: (a) each input parsed (in-memory, as adjacent sub-slices of one shared buffer; streaming; streaming through one shared InlineParser value) concurrently, (b) the concatenation (plus raw HTML with upper-case tag names) parsed once, its tree and reference map untouched until the goroutines start (expected results come from a second parse), and rendered by shared HTMLRenderer values under all 24 configurations, formatted and walked concurrently; oracle = race detector log stays empty and every result equals the sequential one; non-trivial = batch has >= 4 inputs including reference syntax and raw HTML"
 
 func TestProperty(t *testing.T) {
-	harness.Run(t, harness.Plan{Prop: "C19", Checks: []harness.Check{
+	harness.Run(t, harness.Plan{Prop: "C19", Inflight: true, Checks: []harness.Check{
 		{Name: "race", Quick: 150, Thorough: 1200, Gen: genBatch, Prop: prop, Rule: rule},
 	}})
 }
